@@ -97,7 +97,13 @@ def stack_and_keys(ctx, F):
                             "<impl usize>::saturating_sub(<T, CAP>::len(self.state), 1)", "(<T, CAP>::len(self.state) - 1)")
                 seq.append("drop-one" if one else "truncate(%s)" % a)
         elif n.get("k") == "Assign" and hir.strip(n["l"]).get("k") == "Field" and hir.strip(n["l"])["name"] == "current_player":
-            ok = sym(n["r"]) == ("call", "chess::Player::the_other", (("field", ("var", "self"), "current_player"),))
+            want_flip = ("call", "chess::Player::the_other", (("field", ("var", "self"), "current_player"),))
+            ok = sym(n["r"]) == want_flip
+            if not ok:
+                # the mover read into a local first: the same value as long as this is the only assignment of the side in the function
+                n_assign = sum(1 for x, _ in hir.walk(fn["hir"]["body"]) if x.get("k") == "Assign" and hir.strip(x["l"]).get("k") == "Field"
+                               and hir.strip(x["l"])["name"] == "current_player")
+                ok = n_assign == 1 and hir.Sym(env, F, through=True)(n["r"]) == want_flip
             seq.append("flip" if ok else "assign-player?")
         elif n.get("k") == "Match":
             seq.append("match")
@@ -120,6 +126,26 @@ def stack_and_keys(ctx, F):
             cond = [x for x in (hir.guards_of(n, pfn["hir"]["body"], hir.Sym(hir.Env(pfn["hir"], F), F)) or []) if x[0] in ("if", "arm")]
             adds.append((n["name"], silent, bool(cond)))
     ok = len(adds) == 1 and not adds[0][1] and not adds[0][2]
+    if len(adds) == 1 and adds[0][1] and not adds[0][2]:
+        # a dropped `try_push` result is harmless as long as the stack keeps the capacity the unchecked push was verified for (C15.CAP:
+        # 512 >= 400 plies of game + 64 iterations + the capture-only plies below them)
+        import re as _re
+        cap = None
+        for v_ in F.adt("chess::Game")["variants"]:
+            for f_ in v_["fields"]:
+                if f_.get("name") == "state":
+                    m_ = _re.search(r"ArrayVec<[^,]+,\s*([A-Za-z0-9_:]+)\s*>", str(f_.get("ty")))
+                    if m_ and m_.group(1).isdigit():
+                        cap = int(m_.group(1))
+                    elif m_:
+                        cs = [c_ for c_ in F.consts if c_ == m_.group(1) or c_.endswith("::" + m_.group(1).split("::")[-1])]
+                        if len(cs) == 1:
+                            try:
+                                cap = F.const_int(cs[0])
+                            except Exception:
+                                cap = None
+        ok = cap is not None and cap >= 512
+        adds = adds + [("capacity of the state stack", cap)]
     ctx.check("C03.M", "push-stacks-one-state-unconditionally", ok, fn=pfn["path"], file=pfn["file"], line=pfn["span"][0],
               what="push must add exactly one entry to the per-ply state stack on every path, by an operation that cannot drop it silently "
                    "(a `try_push` whose result is ignored loses the entry when the stack is full; the matching pop then removes an older one)",
